@@ -296,6 +296,43 @@ def run(ctx, with_resize=True):
                    'Semaphore::new(%s) vs max_size: %s' % (permits, mx), construct='init-permits', sites=[permits, mx])
             ctx.ob('R01.8', 'size starts at 0', sz == '0_usize', ctx.where(fb, slots_agg[0].line), 'size: %s' % sz, construct='init-size')
 
+    # ---- R01.11 idle objects stay in the queue (under the lock) until a permit holder pops them ------------------------
+    # the queue storage is never handed out by mutable reference to anything but its own methods (`mem::replace/take/swap`
+    # would move every idle object out of the books: a get() holding a legitimate permit then finds nothing and creates)
+    n_q = 0
+    n_foreign = []
+    for b in managed_bodies(prog):
+        ban = prog.an(b)
+        for blk in b.blocks:
+            t_ = blk.term
+            if t_.kind != 'call' or blk.cleanup:
+                continue
+            for i_, a_ in enumerate(t_.args):
+                if a_.kind == 'const' or a_.place.proj:
+                    continue
+                ty_ = b.locals[a_.place.local]['ty']
+                if not (ty_.startswith('&mut ') and 'std::collections::VecDeque<' in ty_):
+                    continue
+                if not any(s_[0] == 'field' and s_[1] == '%s.%s' % (r.SLOTS, r.QUEUE) for s_ in sources(ban, a_)):
+                    continue
+                n_q += 1
+                own_method = any(n_.startswith('std::collections::VecDeque::') or n_.startswith('<std::collections::VecDeque') or n_.startswith('std::collections::vec_deque::') or
+                                 n_.endswith('IntoIterator>::into_iter') or n_.endswith('IndexMut>::index_mut') or n_.endswith('Index>::index') or n_.endswith('Extend>::extend') for n_ in t_.callee_names())
+                # a foreign function (mem::take / replace / swap ..) is harmless while the slots lock stays held until the critical
+                # section ends with the contents back in place; what breaks the books is releasing the lock while the queue is
+                # swapped out.  Releasing and restoring needs a second lock(): reachable after this call = the window exists
+                relock = []
+                if not own_method:
+                    after = ban.reach_after(blk.idx, ('normal',))
+                    relock = [x for x in after if b.blocks[x].term.kind == 'call' and not b.blocks[x].cleanup and b.blocks[x].term.callee_names() & {'std::sync::Mutex::lock', 'std::sync::Mutex::try_lock'}]
+                    n_foreign.append(ctx.where(b, t_.line))
+                ok_ = own_method or not relock
+                ctx.ob('R01.11', 'the idle queue is never swapped out of the pool across a release of the slots lock', ok_, ctx.where(b, t_.line),
+                       '%s receives `&mut` to the idle queue and the slots lock is taken again afterwards (line %s): between the two the idle objects are outside the pool while other callers hold permits for them' % (sorted(t_.callee_names()), b.blocks[relock[0]].term.line) if not ok_ else '',
+                       construct='queue-mut-ref:%s:%s' % (b.name, sorted(t_.callee_names())[0] if t_.callee_names() else '?'))
+    ctx.floor('R01.11', 'mutable uses of the idle queue', n_q, 5)
+    ctx.count('queue_foreign_mut_uses', len(n_foreign))
+
     # ---- R01.8 (cont.) the limit used is the limit configured ----------------------------------------------------
     builder_plumbing(ctx, 'R01.8', ['max_size', 'config'])
 
